@@ -1208,8 +1208,9 @@ PROPS["C18"] = dict(
          "attribute shapes ident / function / assignment; type nesting up to 5; integers up to the isize/usize limits) printed with randomised whitespace, line/block comments, trailing commas, several attributes per bracket, doc comments vs #[doc], "
          "decimal/hex/binary/octal/underscore literals, escaped and raw strings, arbitrary interleaving of the six statement classes; the real parser must return exactly the generated module. "
          "B. 3000 (quick) type and attribute-list strings, 35% of them token-mutated: the Coq parser on the real lexer's token stream must agree with the real parser. non-trivial = distinct module whose AST has > 200 characters",
-    level_text="Proved in Coq (Properties/C18.v): parse(print x) = x for types (any nesting, incl. the generics hack), expressions and attribute lists (any length). Items, functions, statements, the module loop and lexing are not modelled (partial); "
-               "for them the monitor runs the real parser on randomised concrete syntax of generated abstract modules and demands the identical module back; the Coq parser is tied to the real one on the modelled sub-languages by running both on the same token streams (valid and mutated).",
+    level_text="Proved in Coq (Properties/C18.v): parse(print x) = x for types (any nesting, incl. the generics hack), expressions and attribute lists (any length), and C18_module_roundtrip: parse_module (print_module m) = Some m for EVERY well-formed module over the whole grammar "
+               "(functions, fields, vftable blocks, type/enum definitions, impl, extern types/values, use, backend blocks, module attributes, any interleaving of item kinds), with a decidable well-formedness predicate. Lexing and error positions are not modelled (the token stream is the real lexer's); "
+               "spellings other than the printer's canonical one are covered by the monitor: the real parser on randomised concrete syntax of generated abstract modules must return the identical module, and the Coq parsers (types, attribute lists, whole modules) and the real parser are run on the same token streams (valid and token-damaged) and must agree on acceptance and on the result.",
     level_note="Trusted: Coq kernel; tools/c18.py's printer (it defines 'written out in concrete syntax'); proc_macro2 as the lexer both parsers consume.",
     technique="Coq round-trip proofs for the modelled sub-grammars + differential testing real parser vs generated ASTs and vs the Coq parser",
 )
